@@ -53,7 +53,8 @@ def apply_op(G, op):
         def f():
             for x in G.lines:
                 if x.record_type != 'H' and not x.virtual and str(x) == op[1]:
-                    return G.rm(x)
+                    # Gfa.rm(line) and line.disconnect() are the two public ways; which one is used depends on the text only
+                    return G.rm(x) if sum(map(ord, op[1])) % 2 else x.disconnect()
             raise g.NotFoundError('no line is written as %r' % op[1])
         return impl.outcome(f)
     raise ValueError(k)
